@@ -96,6 +96,18 @@ CHECKS = {
             'Relies on CPython reference counting; the order injection is a harness-side module global in '
             'desper.events (evidence field schedule_control_used shows whether it applied).',
             'DESIGN.md section 3 / C10'),
+    'C08': ('exploration',
+            'property-based testing (Hypothesis) of coroutine schedules against an exact-rational reference '
+            'model with per-coroutine deadlines, plus exhaustive enumeration of two finite sub-spaces '
+            '(itertools.product sharded over 16 processes)',
+            'Randomised schedules (scripts, start points incl. from inside other coroutines, dt sequences with '
+            'zeros) compared frame by frame with a reference model; the thorough tier enumerates completely '
+            '{2 coroutines, scripts <= 3, staggered starts, 4 frames} and {3 coroutines, scripts <= 2, 4 frames} '
+            'over yield values {None,1/2,1,5/2} and dt values {0,1/2,1,3} (7.5M schedules). Exhaustive on those '
+            'sub-spaces, sampled elsewhere.',
+            'Values are multiples of 1/8 so float arithmetic is exact; order among coroutines woken in the same '
+            'frame not compared; a coroutine started from inside a frame may first run in that frame or the next.',
+            'DESIGN.md section 3 / C08'),
 }
 
 ALL = ['C%02d' % i for i in range(1, 21)]
